@@ -548,7 +548,8 @@ static bool all_children_leaves(int r) { for (int c = r + 1; c < VM_NS; ++c) if 
 static void body_utilize_nested(int region, int full) {         // utilize(region): every nested region entered resolves by utility too
   ARBITRARY_ACTIVE(f);                                            // full: bit 0 = also assert the product/mean rule, bit 1 = changeTo(region) instead of utilize(region)
   predraw_answers();
-  call_immediate(f, (full & 2) ? 0 : 4, region);
+  const bool by_change = (full & 2) != 0;
+  call_immediate(f, by_change ? 0 : 4, region);
   full &= 1;
   post_invariant(f);
   if (!g_round_cancelled) {
@@ -558,7 +559,8 @@ static void body_utilize_nested(int region, int full) {         // utilize(regio
       VASSERT(C12/C01, p < VM_SPEC[r].width, "utilize activates a sub-state in the region and in every nested region it enters");
       // regions whose sub-states are all leaves compare plain utilities; the product/mean rule of the enclosing region is
       // asserted only in the 'full' variant (symbolic float products and a division: minutes and >12 GB on this back end)
-      if (full || all_children_leaves(r)) {
+      // utilize(region) resolves every region it enters by utility; changeTo(region) lets each region follow its DECLARED strategy
+      if ((full || all_children_leaves(r)) && (!by_change || VM_SPEC[r].strategy == ST_UTILITARIAN)) {
         const int best = spec_best_child(r);
         VASSERT(C12, best >= 0 && p == VM_SPEC[best].prong, "utilize activates, in the region and in every nested region it enters, the sub-state with the greatest utility (first on ties); a nested region counts head x chosen sub-state, an orthogonal one head x mean");
       }
